@@ -32,6 +32,10 @@ Input(ctx, c) ==
     \* several spans in one text; tags are case-insensitive and may carry blanks
     [] ctx = "multi" -> <<"p">> \o NW(c) \o <<"m">> \o NW(c) \o <<"m">> \o NW(c) \o <<"m">> \o NW(c) \o <<"q">>
     [] ctx = "upper" -> <<"p", "<NOWIKI >">> \o c \o <<"</NoWiki  >", "q">>
+    \* the content is the argument of a transforming parser function / of a template that
+    \* transforms its argument (TU is the template "{{uc:{{{1}}}}}"): it must stay opaque
+    [] ctx = "ucarg" -> <<"{{uc:">> \o NW(c) \o <<"}}">>
+    [] ctx = "ucbody" -> <<"{{TU|">> \o NW(c) \o <<"}}">>
 \* T1 is the template "({{{1}}})"
 Expanded(ctx, c) ==
   CASE ctx = "top"  -> <<"p">> \o Quote(c) \o <<"q">>
@@ -41,9 +45,11 @@ Expanded(ctx, c) ==
     [] ctx = "cell" -> <<"{|", "NL", "|", "SP">> \o Quote(c) \o <<"NL", "|}">>
     [] ctx = "multi" -> <<"p">> \o Quote(c) \o <<"m">> \o Quote(c) \o <<"m">> \o Quote(c) \o <<"m">> \o Quote(c) \o <<"q">>
     [] ctx = "upper" -> <<"p">> \o Quote(c) \o <<"q">>
+    [] ctx \in {"ucarg", "ucbody"} -> Quote(c)
 \* parse(): path of node kinds to the single text leaf, and the text it must hold
 LeafPath(ctx) ==
   CASE ctx \in {"top", "multi", "upper"} -> <<>>
+    [] ctx \in {"ucarg", "ucbody"} -> <<"SKIP">>      \* expand-only contexts
     [] ctx = "targ" -> <<"TEMPLATE">>
     [] ctx = "link" -> <<"LINK">>
     [] ctx = "list" -> <<"LIST", "LIST_ITEM">>
